@@ -1317,7 +1317,8 @@ def _thread_workload(g, t, nops):
         elif r < 0.88:
             ls += ['k.extract %d %s %s' % (t, hx(g.bytes(7)), hx(g.bytes(5)))] + ['k.expand %d 01 %d' % (t, g.randint(0, 70)) for _ in range(g.randint(1, 3))]
         else:
-            ls += ['p.script %d %s' % (t, ','.join('%s:32' % hx(g.bytes(32)) for _ in range(4))), 'p.inituser %d user 1 %s' % (t, hx(g.bytes(4))),
+            ks = [g.choice([32, 32, 32, 7, 0, 16]) for _ in range(4)]   # short and empty deliveries: the undelivered part must not come from anywhere but the state object
+            ls += ['p.script %d %s' % (t, ','.join('%s:%d' % (hx(g.bytes(k_)), k_) for k_ in ks)), 'p.inituser %d user 1 %s' % (t, hx(g.bytes(4))),
                    'p.gen %d %d' % (t, g.randint(0, 100)), 'p.feed %d %s' % (t, hx(g.bytes(5))), 'p.gen %d 40' % t, 'p.reseed %d' % t, 'p.gen %d 33' % t]
     return ls
 
@@ -1356,6 +1357,10 @@ def _minic_footprints(ctx, per):
         own = set()
         if '.' in f[0] and f[0][0] in KIND and f[0][1] == '.' and len(f) > 1 and f[1].isdigit(): own = {KIND[f[0][0]] * 8 + int(f[1])}
         t = field(m, 'touch')
+        if m.startswith('fault uninit'):
+            ctx.fail('depends-on-uninitialised-memory(source)', [l], m, 'no read of uninitialised memory',
+                     'executing the regenerated source, this operation reads a local variable or buffer byte that was never written: its result depends on '
+                     'whatever earlier, unrelated calls left on the stack', variant='minic'); break
         if m.startswith('fault'):
             ctx.broken_proofs.append('MiniC interpreter of the regenerated source faults on "%s": %s' % (l[:100], m[:120])); break
         touched = set() if t in (None, '-') else {int(x) for x in t.split(',')}
@@ -1393,6 +1398,16 @@ def check_C19(ctx):
         for (t, i), o, l in zip(order, impl, il):
             if o != alone[t][i]:
                 ctx.fail('history-dependence', il[:il.index(l) + 1][-40:], o, alone[t][i], 'the result of a call depends on earlier unrelated calls (interleaved run vs the same thread\'s ops alone)'); break
+    # (1b) the system entropy source after unrelated failed libc calls (the harness leaves a stale errno before every operation):
+    sl = []
+    for t in range(4):
+        ent = g.bytes(32, 'rand')
+        sl += ['sys.script OK' + hx(ent), 'p.init 0 %s' % hx(g.bytes(3)), 'p.gen 0 40', 'sys.script EINTR,OK' + hx(ent), 'p.reseed 0', 'p.gen 0 33', 'p.free 0']
+    si, sm = ctx.corr('system-source-with-stale-errno', sl, ('prod', 'san'), stateless=False, nontrivial=lambda i: sl[i].startswith('p.'))
+    for l, o, m_ in zip(sl, si, sm):
+        if l.startswith(('p.init', 'p.reseed')) and field(o, 'ret') != '1':
+            ctx.fail('stale-errno-dependence', sl[:sl.index(l) + 1][-3:], o, m_, 'the OS delivered entropy successfully but the call reports failure: with a stale errno left by an earlier, unrelated '
+                     'failed libc call the library mistakes its own successful system call for a failure'); break
     # (2) real threads: every thread's results must equal its serial results; schedules perturbed by repetition
     tagged = []
     for t in range(nthreads):
